@@ -36,9 +36,7 @@ dx5_dt = i0 + i2 + i3 - x5
 def plan(tier, seed):
     specs = [{"klass": "wide_ties", "i": 0}]
     for k, f in enumerate(classes.corpus(env.REPO, big=True)):
-        big = os.path.getsize(f) > 20000
-        if big and tier == "quick" and "ToRORd" not in f:
-            continue
+        big = os.path.getsize(f) > 12000
         specs.append({"klass": "corpus", "i": k, "file": os.path.relpath(f, env.REPO), "soft_timeout": 900, "big": big})
     n = 26 if tier == "quick" else 160
     for k in range(n):
